@@ -148,7 +148,12 @@ fn reconfig(
     // reconfiguration must still forget pending shards)
     if let (true, Some(c)) = ((how == "reset" || how == "renew") && rng.chance(1, 4), cur) {
         if how == "reset" || c.kind != "rs" {
-            cfg = Cfg { kind: if how == "reset" { c.kind.clone() } else { cfg.kind.clone() }, engine: cfg.engine.clone(), k: c.k, r: c.r, sb: c.sb };
+            // a renew with the same counts goes to the OTHER dedicated rate half of the time (the working
+            // space then changes layout under identical counts)
+            let other = match c.kind.as_str() { "high" => "low", "low" => "high", _ => "" };
+            let nk = if how == "reset" { c.kind.clone() } else if !other.is_empty() && rng.chance(1, 2) { other.to_string() } else { cfg.kind.clone() };
+            let ne = if nk == "rs" { "default".to_string() } else { cfg.engine.clone() };
+            cfg = Cfg { kind: nk, engine: ne, k: c.k, r: c.r, sb: c.sb };
             // a renew to another flavour must still support the counts
             let env_kind = if cfg.kind == "rs" { "default" } else { cfg.kind.as_str() };
             if !envelope(env_kind, cfg.k, cfg.r) {
@@ -276,6 +281,7 @@ pub fn dec_history(rng: &mut Prng, o: &HistOpts) -> Vec<Round> {
         cur = reconfig(rng, o, "D", None, &mut out);
     }
     let mut prev_abandoned = false;
+    let mut prev_positions: Option<Vec<usize>> = None;
     for round in 0..o.rounds {
         if round > 0 && (prev_abandoned || rng.chance(2, 3)) {
             let before = cur.clone();
@@ -303,7 +309,23 @@ pub fn dec_history(rng: &mut Prng, o: &HistOpts) -> Vec<Round> {
             Some(r) => r,
             None => vec![vec![0u8; c.sb]; c.r],
         };
-        let (go, gr, _) = gen_received(rng, c.k, c.r);
+        let (mut go, mut gr, _) = gen_received(rng, c.k, c.r);
+        // one round in three re-creates the received-position bitmap of the previous round in the
+        // layout now in force (state keyed on "the same bitmap as last time" must not survive a
+        // change of layout, counts or data)
+        let high = match c.kind.as_str() { "high" => true, "low" => false, _ => rule_is_high(c.k, c.r) };
+        let (obase, rbase) = if high { (npow2(c.r), 0) } else { (0, npow2(c.k)) };
+        if let Some(prev) = prev_positions.as_ref() {
+            if rng.chance(1, 3) {
+                let o2: Vec<usize> = prev.iter().filter(|p| **p >= obase && **p < obase + c.k).map(|p| p - obase).collect();
+                let r2: Vec<usize> = prev.iter().filter(|p| **p >= rbase && **p < rbase + c.r).map(|p| p - rbase).collect();
+                if o2.len() + r2.len() >= c.k {
+                    go = o2;
+                    gr = r2;
+                }
+            }
+        }
+        prev_positions = Some(go.iter().map(|i| obase + i).chain(gr.iter().map(|j| rbase + j)).collect());
         let mut order: Vec<(bool, usize)> =
             go.iter().map(|i| (true, *i)).chain(gr.iter().map(|i| (false, *i))).collect();
         rng.shuffle(&mut order);
